@@ -4,6 +4,7 @@ import GrVerif.Proofs.VmSafe2
 import GrVerif.Proofs.FsmSafe
 import GrVerif.Proofs.CursorShape
 import GrVerif.Proofs.CodeCursor
+import GrVerif.Proofs.LoadedCursor
 import GrVerif.Proofs.MapBound
 import GrVerif.Proofs.DataSafe
 import GrVerif.Proofs.Total
@@ -284,6 +285,43 @@ whenever a `DELETE` was read (`analyse_fold_deletes`).  So for a rule whose acti
 theorem loader_accepted_action_is_codeOK (l : CodeLoad.Limits) (pt : Nat) (bc : List Nat) (p : CodeLoad.Loaded) (hrl : l.ruleLength < 65536)
     (h : CodeLoad.load l false pt bc = .ok (.ok (some p))) : codeOK ⟨l.preContext, l.ruleLength, false⟩ bc true = true :=
   CodeLoad.accepted_action_is_codeOK l pt bc p hrl h
+
+/-- The same for constraint code – a rule's constraint and a pass's constraint: what `Machine::Code`'s loading constructor accepts as
+constraint code moves no cursor and writes through none, because `decoder::validate_opcode` refuses every opcode without a constraint
+implementation and the regenerated opcode table gives none of the opcodes the cursor tests look at such an implementation
+(`constraint_table`, decided over the table of this run).  The loader's loop and the pipeline model's decoder walk the bytes in the same
+steps also through a `CNTXT_ITEM` (`loop_walk`). -/
+theorem loader_accepted_constraint_is_codeOK (l : CodeLoad.Limits) (pt : Nat) (bc : List Nat) (op : Option CodeLoad.Loaded)
+    (h : CodeLoad.load l true pt bc = .ok (.ok op)) : codeOK ⟨0, 1, false⟩ bc false = true :=
+  CodeLoad.accepted_constraint_is_codeOK l pt bc op h ⟨0, 1, false⟩ rfl
+
+/-- **A pass the loader accepts passes the cursor tests.**  For every byte string, every base offset, every pass type and every limits
+of the font: if `Pass::readPass` (the model `readPassAll`, tied to the real loader by the C01 correspondence) accepts the pass, then any
+pipeline-model pass with the rules (`preContext`, `sortKey`, action bytes, constraint bytes) and the pass constraint the loader read is
+`passOK` – the hypothesis of `no_write_through_a_null_cursor`, `map_register_stays_inside_the_slot_map`,
+`no_operand_read_outside_the_code` and `pipeline_never_faults`, pass by pass.  `Pass::readRules` hands `Machine::Code` exactly the
+`(pre_context, rule_length)` the rule loop later starts the cursor bookkeeping from, and refuses `preContext ≥ sortKey`. -/
+theorem loader_accepted_pass_passes_cursor_tests (b : List Nat) (base : Nat) (collOK : Bool) (f : Loader.FontLimits) (pt : Nat) (P : Loader.PassAll)
+    (e : Loader.readPassAll b base collOK f pt = .ok (.ok P)) (p : PassT)
+    (hr : p.rules = (P.rules.map (Loader.ruleOf b)).toArray) (hp : p.pconstraint = Loader.pconstraintOf b P.layout) : passOK p = true :=
+  Loader.readPassAll_passOK b base collOK f pt P e p hr hp
+
+/-- and so does a font all of whose passes were accepted -/
+theorem loader_accepted_font_passes_cursor_tests (font : Font)
+    (h : ∀ p ∈ font.passes.toList, ∃ b base collOK f pt P, Loader.readPassAll b base collOK f pt = .ok (.ok P) ∧
+      p.rules = (P.rules.map (Loader.ruleOf b)).toArray ∧ p.pconstraint = Loader.pconstraintOf b P.layout) : fontOK font = true := by
+  unfold fontOK
+  rw [Array.all_eq_true]
+  intro i hi
+  obtain ⟨b, base, collOK, f, pt, P, e, hr, hp⟩ := h font.passes[i] (Array.getElem_mem_toList hi)
+  exact loader_accepted_pass_passes_cursor_tests b base collOK f pt P e _ hr hp
+
+/-! non-vacuity: the second pass of `tests/fonts/small.ttf` (bytes [215, 334) of its Silf sub-table; one rule of two slots whose action is
+`copy_next; put_copy 0; …; next; ret_zero`) is accepted by the loader model, and the theorem gives `passOK` of the pass built from it -/
+def smallPass : List Nat := [0, 5, 2, 0, 0, 1, 0, 0, 0, 0, 1, 44, 0, 0, 1, 44, 0, 0, 1, 45, 0, 0, 0, 0, 0, 3, 0, 2, 0, 1, 0, 2, 0, 2, 0, 2, 0, 1, 0, 0, 0, 3, 0, 3, 0, 0, 0, 5, 0, 5, 0, 1, 0, 0, 0, 1, 0, 0, 0, 0, 0, 0, 0, 2, 0, 10, 0, 0, 0, 0, 0, 1, 0, 0, 0, 33, 0, 1, 0, 0, 0, 0, 0, 2, 0, 0, 27, 30, 0, 1, 255, 38, 2, 1, 0, 35, 17, 41, 6, 0, 35, 8, 41, 7, 0, 35, 9, 44, 6, 0, 35, 3, 44, 7, 0, 35, 4, 25, 49]
+example : (match Loader.readPassAll smallPass 215 false { classes := 2, glyfAttrs := 8, features := 1, numUser := 5 } 3 with
+    | .ok (.ok P) => P.rules.map fun (r : Loader.RuleRec) => (r.pre, r.sort, (Loader.ruleOf smallPass r).action.length, (Loader.ruleOf smallPass r).constraint.length)
+    | _ => []) = [(0, 2, 33, 0)] := by decide +kernel
 
 /-! non-vacuity: the jump font above meets the hypothesis.  At the level of one action the hypothesis is what stands between the
 machine and the null pointer: on a one-slot stream the code `next; put_glyph` (`_out_index = 1 = _out_length` at the `put_glyph`:
